@@ -4324,10 +4324,13 @@ impl<'a> Parser<'a> {
         // parse: [ argname ] argtype
         let mut name = None;
         let mut data_type = self.parse_data_type()?;
-        if let DataType::Custom(n, _) = &data_type {
-            // the first token is actually a name
-            name = Some(n.0[0].clone());
-            data_type = self.parse_data_type()?;
+        if let DataType::Custom(n, modifiers) = &data_type {
+            // a bare word is actually the argument name; a qualified name or one with
+            // modifiers can only be a type
+            if n.0.len() == 1 && modifiers.is_empty() {
+                name = Some(n.0[0].clone());
+                data_type = self.parse_data_type()?;
+            }
         }
 
         let default_expr = if self.parse_keyword(Keyword::DEFAULT) || self.consume_token(&Token::Eq)
